@@ -313,7 +313,13 @@ impl SchedulerCore {
                                 // A job that panics takes its queue with it (the queue is marked as panicked while the panic unwinds), but
                                 // it must not take this thread: other queues may be waiting in the schedule for a thread to become free,
                                 // and nothing would ever run them if the last scheduling request has already been made
-                                let _ = panic::catch_unwind(panic::AssertUnwindSafe(|| job(job_data)));
+                                if let Err(panic_value) = panic::catch_unwind(panic::AssertUnwindSafe(|| job(job_data))) {
+                                    // Discarding the value the job panicked with runs its destructor, which can panic in turn: that
+                                    // must not take this thread either
+                                    if let Err(second_value) = panic::catch_unwind(panic::AssertUnwindSafe(move || mem::drop(panic_value))) {
+                                        mem::forget(second_value);
+                                    }
+                                }
                             } else {
                                 done = true;
                             }
